@@ -33,15 +33,16 @@ def _posterior_dataset(names, n_chains=2, n_draws=3, ids=('a', 'b')):
 def entry_points():
     eps = []
 
-    def add(name, fn, stochastic=True, gen_ok=True, discrete=False):
-        eps.append(dict(name=name, fn=fn, stochastic=stochastic, gen_ok=gen_ok, discrete=discrete))
+    def add(name, fn, stochastic=True, gen_ok=True, discrete=False, axis=None):
+        # axis: the axis of the returned array that runs over the samples of the call (None: a table, not judged cell-wise)
+        eps.append(dict(name=name, fn=fn, stochastic=stochastic, gen_ok=gen_ok, discrete=discrete, axis=axis))
     mo = np.array([1.0, 2.0, 1.5])
     for kind, par in (('G', [0.5]), ('M', [0.3]), ('C', [0.4, 0.2]), ('L', [0.3])):
         em = probes.error_model(kind)
-        add('ErrorModel[%s].sample' % kind, lambda seed, em=em, par=par: em.sample(par, mo, n_samples=3, seed=seed))
+        add('ErrorModel[%s].sample' % kind, lambda seed, em=em, par=par: em.sample(par, mo, n_samples=3, seed=seed), axis=1)
     rem = chi.ReducedErrorModel(chi.ConstantAndMultiplicativeGaussianErrorModel())
     rem.fix_parameters({'Sigma rel.': 0.2})
-    add('ReducedErrorModel.sample', lambda seed: rem.sample([0.4], mo, n_samples=3, seed=seed))
+    add('ReducedErrorModel.sample', lambda seed: rem.sample([0.4], mo, n_samples=3, seed=seed), axis=1)
     pops = {
         'Gaussian': (chi.GaussianModel(n_dim=2), [1.0, 1.2, 0.3, 0.4], {}),
         'Gaussian-nc': (chi.GaussianModel(centered=False), [1.0, 0.3], {}),
@@ -60,17 +61,23 @@ def entry_points():
     for name, (pm, par, kw) in pops.items():
         add('PopulationModel[%s].sample' % name,
             lambda seed, pm=pm, par=par, kw=kw: pm.sample(par, n_samples=3, seed=seed, **kw),
-            discrete=(name == 'Heterogeneous'))
+            discrete=(name == 'Heterogeneous'), axis=0)
     add('PopulationModel[Pooled].sample', lambda seed: chi.PooledModel().sample([0.7], n_samples=3, seed=seed),
         stochastic=False)
     pm = _pred_model(2)
-    add('PredictiveModel.sample', lambda seed: pm.sample([1.0, 0.8, 0.3, 0.2], TIMES, n_samples=2, seed=seed, return_df=False))
+    add('PredictiveModel.sample', lambda seed: pm.sample([1.0, 0.8, 0.3, 0.2], TIMES, n_samples=2, seed=seed, return_df=False), axis=2)
     pm1 = _pred_model(1)
-    add('PredictiveModel[1 output].sample', lambda seed: pm1.sample([1.0, 0.8, 0.3], TIMES, n_samples=2, seed=seed, return_df=False))
+    add('PredictiveModel[1 output].sample', lambda seed: pm1.sample([1.0, 0.8, 0.3], TIMES, n_samples=2, seed=seed, return_df=False), axis=2)
     ppm = chi.PopulationPredictiveModel(pm, chi.ComposedPopulationModel([
         chi.LogNormalModel(n_dim=2), chi.GaussianModel(centered=False), chi.LogNormalModel()]))
     add('PopulationPredictiveModel.sample',
-        lambda seed: ppm.sample([0.0, -0.2, 0.2, 0.2, 0.4, 0.05, -1.5, 0.2], TIMES, n_samples=3, seed=seed, return_df=False))
+        lambda seed: ppm.sample([0.0, -0.2, 0.2, 0.2, 0.4, 0.05, -1.5, 0.2], TIMES, n_samples=3, seed=seed, return_df=False), axis=2)
+    # replicate measurements (a time point requested more than once): every one of them has its own noise
+    REP = [2.0, 0.5, 0.5, 1.0, 2.0]
+    add('PredictiveModel[replicate times].sample',
+        lambda seed: pm.sample([1.0, 0.8, 0.3, 0.2], REP, n_samples=2, seed=seed, return_df=False), axis=2)
+    add('PopulationPredictiveModel[replicate times].sample',
+        lambda seed: ppm.sample([0.0, -0.2, 0.2, 0.2, 0.4, 0.05, -1.5, 0.2], REP, n_samples=3, seed=seed, return_df=False), axis=2)
     prior = pints.ComposedLogPrior(pints.UniformLogPrior(0.5, 1.5), pints.UniformLogPrior(0.5, 1.0),
                                    pints.UniformLogPrior(0.2, 0.4), pints.UniformLogPrior(0.1, 0.3))
     prp = chi.PriorPredictiveModel(pm, prior)
@@ -87,7 +94,7 @@ def entry_points():
     lp = chi.LogPosterior(ll, pints.ComposedLogPrior(pints.GaussianLogPrior(1, 0.2), pints.GaussianLogPrior(1, 0.2),
                                                      pints.LogNormalLogPrior(-1, 0.2)))
     add('LogPosterior.sample_initial_parameters', lambda seed: lp.sample_initial_parameters(n_samples=2, seed=seed),
-        gen_ok=False)
+        gen_ok=False, axis=0)
     lls = [chi.LogLikelihood(probes.ProbeMech(2, 1, tag='rsh%d' % i), chi.GaussianErrorModel(), [1.0, 2.0], [0.5, 1.0])
            for i in range(2)]
     hll = chi.HierarchicalLogLikelihood(lls, chi.ComposedPopulationModel([
@@ -96,7 +103,7 @@ def entry_points():
         pints.GaussianLogPrior(0, 0.2), pints.LogNormalLogPrior(-1, 0.2), pints.GaussianLogPrior(1, 0.2),
         pints.GaussianLogPrior(0.5, 0.1), pints.LogNormalLogPrior(-1, 0.2)))
     add('HierarchicalLogPosterior.sample_initial_parameters',
-        lambda seed: hp.sample_initial_parameters(n_samples=2, seed=seed), gen_ok=False)
+        lambda seed: hp.sample_initial_parameters(n_samples=3, seed=seed), gen_ok=False, axis=0)
     # no individual-level parameters at all (every dimension pooled or heterogeneous): another path through the sampler
     lls2 = [chi.LogLikelihood(probes.ProbeMech(2, 1, tag='rsp%d' % i), chi.GaussianErrorModel(), [1.0, 2.0], [0.5, 1.0])
             for i in range(2)]
@@ -105,7 +112,17 @@ def entry_points():
         pints.GaussianLogPrior(1, 0.2), pints.GaussianLogPrior(1, 0.2), pints.LogNormalLogPrior(-1, 0.2),
         pints.LogNormalLogPrior(-1, 0.2)))
     add('HierarchicalLogPosterior[no individual-level parameters].sample_initial_parameters',
-        lambda seed: hp2.sample_initial_parameters(n_samples=2, seed=seed), gen_ok=False)
+        lambda seed: hp2.sample_initial_parameters(n_samples=2, seed=seed), gen_ok=False, axis=0)
+    # the filter posterior: top-level parameters from the prior, simulated individuals from the population model, one noise
+    # realisation per simulated individual, observable and time -- for EVERY requested starting point
+    fdata = np.array([[[1.0, 2.0, 1.5]], [[1.2, 1.8, 1.1]], [[0.9, 2.2, 1.4]]])
+    fp = chi.PopulationFilterLogPosterior(
+        chi.GaussianFilter(fdata), np.array([0.5, 1.0, 1.5]), probes.ProbeMech(2, 1, tag='rsfp'),
+        chi.ComposedPopulationModel([chi.LogNormalModel(), chi.PooledModel()]),
+        pints.ComposedLogPrior(pints.GaussianLogPrior(0, 0.2), pints.LogNormalLogPrior(-1, 0.2), pints.GaussianLogPrior(1, 0.2),
+                               pints.LogNormalLogPrior(-1, 0.2)), n_samples=4)
+    add('PopulationFilterLogPosterior.sample_initial_parameters',
+        lambda seed: fp.sample_initial_parameters(n_samples=3, seed=seed), gen_ok=False, axis=0)
     return eps
 
 
@@ -189,6 +206,25 @@ def pattern_case(i):
                 c = np.asarray(fn(8), dtype=float)
                 if a.shape == c.shape and np.array_equal(a, c):
                     out.append(('SeedSensitive', 'different_seeds_equal', None))
+                # "within one call ... samples are mutually independent": a cell whose value depends on the seed is a continuous
+                # random variable; two samples of one call that share its value (probability zero under independence) share
+                # the draw
+                if ep.get('axis') is not None and a.shape == c.shape and a.ndim > ep['axis'] and a.shape[ep['axis']] >= 2:
+                    A = np.moveaxis(a, ep['axis'], 0).reshape(a.shape[ep['axis']], -1)
+                    C = np.moveaxis(c, ep['axis'], 0).reshape(a.shape[ep['axis']], -1)
+                    for j in range(A.shape[1]):
+                        if np.any(A[:, j] != C[:, j]) and len(set(A[:, j].tolist())) < A.shape[0]:
+                            out.append(('Independent', 'samples_of_one_call_share_a_draw',
+                                        dict(cell=j, values=A[:, j].tolist(), n_cells=int(A.shape[1]))))
+                            break
+                    else:
+                        # ... and so for ANY two cells of one call (two time points, two outputs, two dimensions): every cell
+                        # that depends on the seed carries noise of its own
+                        dep = (a != c)
+                        vals = a[dep].tolist()
+                        if len(set(vals)) < len(vals):
+                            out.append(('Independent', 'cells_of_one_call_share_a_draw',
+                                        dict(seed_dependent_cells=len(vals), distinct=len(set(vals)))))
                 if ep['gen_ok']:
                     g = np.random.default_rng(7)
                     d1 = np.asarray(fn(g), dtype=float)
